@@ -44,7 +44,7 @@ try:
     env = dict(os.environ, PYTHONPATH=wt, PYTHONDONTWRITEBYTECODE="1")
     import re
     # demos written in an agent's worktree may assert that the library was imported from that worktree
-    demo_src = re.sub(r'"/tmp/s[ab]_C\d\d"', '"/"', open(demo).read())
+    demo_src = re.sub(r'"/tmp/s[a-z]_C\d\d"', '"/"', open(demo).read())
     open(os.path.join(tmp, "demo.py"), "w").write(demo_src)
 
     def run_demo():
